@@ -4,6 +4,9 @@ import (
 	"bytes"
 	"compress/gzip"
 	"strings"
+
+	"filippo.io/sunlight"
+	"golang.org/x/mod/sumdb/tlog"
 )
 
 // tamper applies one object-store mutation from the catalogue (C08).
@@ -168,6 +171,25 @@ func (w *seqWorld) tamper(c0 *seqCmd) {
 			}
 		}
 	}
+	suffix := ""
+	if applied != "" && strings.HasPrefix(c.Key, "tile/data/") && prev != nil {
+		// LoadLog re-hashes the leaves of the right-edge data tile against the level-0 tile. A TileLeaf carries bytes
+		// the Merkle leaf does not cover (the chain fingerprints, the submitted pre-certificate): a change confined to
+		// them leaves every leaf hash as it was, and the load rightly goes on from the committed tree. The token says
+		// so (the model then keeps the object as the slice it was); when the two decoders disagree about it the
+		// mutation is not applied.
+		if o2, ok2 := w.objects[c.Key]; ok2 {
+			switch dataTileSameHashes(prev.data, o2.data) {
+			case 1:
+				suffix = " samehashes"
+				w.st.Count("tamper:data-tile-outside-the-leaf-hashes")
+			case -1:
+				w.objects[c.Key] = prev
+				applied = ""
+				w.st.Count("tamper-skipped:ambiguous-data-tile")
+			}
+		}
+	}
 	if applied != "" {
 		// whoever can rewrite an object is not bound by the store's immutability guard either: a tampered object is
 		// an ordinary one (a later upload of the right bytes replaces it, as on a backend that does not enforce the
@@ -181,9 +203,53 @@ func (w *seqWorld) tamper(c0 *seqCmd) {
 		w.orc.tampered = true
 		tok := "gone"
 		if d, o, ok := w.object(c.Key); ok {
-			tok = strings.ReplaceAll((&instBackend{w: w}).payloadToken(c.Key, d, o), " ", "_")
+			tok = strings.ReplaceAll((&instBackend{w: w}).payloadToken(c.Key, d, o)+suffix, " ", "_")
 		}
 		w.ev("- tamper %s %s %s", c.Key, applied, tok)
 		w.st.Count("tamper:" + applied)
 	}
+}
+
+// dataTileSameHashes compares a data tile with what it was: 1 = the leaves the old content holds are all still there
+// with the same Merkle leaf hashes (only bytes outside the hashed fields, or behind the last leaf, changed), 0 = not,
+// -1 = the independent decoder and sunlight.ReadTileLeaf disagree.
+func dataTileSameHashes(oldGz, newGz []byte) int {
+	oldB, err := sqGunzip(oldGz)
+	if err != nil {
+		return 0
+	}
+	newB, err := sqGunzip(newGz)
+	if err != nil {
+		return 0
+	}
+	oldLeaves, _, err := parseTileLeaves(oldB)
+	if err != nil || len(oldLeaves) == 0 {
+		return 0
+	}
+	// independent decoder
+	ind := 1
+	b := newB
+	for _, ol := range oldLeaves {
+		l, rest, err := parseTileLeaf(b)
+		if err != nil || !bytes.Equal(l.MTL, ol.MTL) {
+			ind = 0
+			break
+		}
+		b = rest
+	}
+	// the decoder LoadLog uses
+	real := 1
+	b = newB
+	for _, ol := range oldLeaves {
+		e, rest, err := sunlight.ReadTileLeaf(b)
+		if err != nil || tlog.RecordHash(e.MerkleTreeLeaf()) != tlog.Hash(sqLeafHash(ol.MTL)) {
+			real = 0
+			break
+		}
+		b = rest
+	}
+	if ind != real {
+		return -1
+	}
+	return ind
 }
